@@ -6,9 +6,9 @@ cd $wt || exit 9
 cp DEMO/zz_demo_*_test.go $pkg/ 2>/dev/null
 echo "== base of worktree: $(git log --oneline -1)"
 echo "== with change"
-timeout 900 go test -modfile=/tmp/mutkit/repo.mod -count=1 -vet=off -run 'TestDemo' ./$pkg 2>&1 | tail -8
+timeout 900 go test -modfile=/tmp/mutkit/repo.mod -count=1 -vet=off -run 'Demo' ./$pkg 2>&1 | tail -8
 git stash -q
 echo "== without change"
-timeout 900 go test -modfile=/tmp/mutkit/repo.mod -count=1 -vet=off -run 'TestDemo' ./$pkg 2>&1 | tail -4
+timeout 900 go test -modfile=/tmp/mutkit/repo.mod -count=1 -vet=off -run 'Demo' ./$pkg 2>&1 | tail -4
 git stash pop -q
 git status --short | head
